@@ -45,6 +45,12 @@ class Grp:
                 return l
 
 
+def rep_lams(g, rng):
+    """scalings lambda for Jacobian representatives (lambda^2 x, lambda^3 y, lambda): z = 1, -1, 2, limb-structured, random"""
+    K = g.K
+    return [("z=1", None), ("z=-1", K.neg(K.one)), ("z=2", K.from_int(2)), ("z=2^64", K.from_int(1 << 64)), ("z=random", g.lam(rng))]
+
+
 GS = {"g1": None, "g2": None}
 
 
@@ -116,6 +122,15 @@ def check_C01(ck):
                 assert C.on_curve(Pw)
                 pairs.append((ca + "+same-y-other-x", P, Pw))
         pairs.append(("order3: 2P=-P", P3, P3))
+        repcases, repexp = [], []
+        for (ca, P) in pts[1:4]:
+            for (cb, Qp) in (("same", P), ("neg", C.neg(P)), ("other", pts[2][1])):
+                for (la, lp) in rep_lams(g, rng):
+                    for (lb, lq) in rep_lams(g, rng):
+                        repcases.append(("reps/%s/%s+%s" % (cb, la, lb), "%s add %s %s" % (tag, g.J(P, lp), g.J(Qp, lq)))); repexp.append(g.A(C.add(P, Qp)))
+                        repcases.append(("reps/%s/%s+%s" % (cb, la, lb), "%s eq %s %s" % (tag, g.J(P, lp), g.J(Qp, lq)))); repexp.append("true" if P == Qp else "false")
+        for c, (impl, _), want in zip(repcases, ck.run(repcases), repexp):
+            ck.expect(impl == want, "grouplaw:representatives", c[1], impl, want, "result independent of the Jacobian representatives")
         cases, exp = [], []
         for (cl, P, Qp) in pairs:
             for rep in ("z1", "lam", "lam-1"):
@@ -256,6 +271,20 @@ def check_C02(ck):
             line = "%s wnafhist %s" % (tag, ";".join(hist))
             (impl, _), = ck.run([("wnaf-history", line)])
             ck.expect(impl == ";".join(want), "wnaf-history", line, impl, ";".join(want), "reused context = fresh context = [k]P")
+        # directed histories: a zero (and a tiny) scalar right after a non-zero one on the same buffers
+        kk = rng.randrange(1, R)
+        P0 = base_pts[1][1]
+        for kinds in (("bs", "bs", "bs", "bs"), ("sb", "sb", "sb", "sb"), ("bsh", "bsh", "bs", "bsh"), ("sbh", "sb", "sbh", "sb"), ("bs", "sb", "bs", "sb")):
+            hist, want = [], []
+            for kd, k in zip(kinds, (kk, 0, 1, kk // 3)):
+                if kd in ("bs", "bsh"):
+                    hist.append("%s:%s:%x:%x" % (kd, g.J(P0, g.lam(rng)), 4, k))
+                else:
+                    hist.append("%s:%x:%s" % (kd, k, g.J(P0, g.lam(rng))))
+                want.append(g.A(C.mul(P0, k)))
+            line = "%s wnafhist %s" % (tag, ";".join(hist))
+            (impl, _), = ck.run([("wnaf-history/zero-after-nonzero", line)])
+            ck.expect(impl == ";".join(want), "wnaf-history", line, impl, ";".join(want), "reused context = fresh context = [k]P (zero scalar after non-zero)")
         rec = []
         for n in [0, 1, 2, 3, 4, 7, 8, 9, 20, 21, 43, 44, 47, 48, 120, 121, 126, 127, 260, 261, 273, 274, 563, 564, 826, 827, 1501, 1502, 1630, 1631,
                   3128, 3129, 4555, 4556, 7933, 7934, 62569, 62570, 84071, 84072, 10 ** 6, 2 ** 32, 2 ** 63]:
@@ -306,6 +335,22 @@ def check_C03(ck):
             exp.append(O.show_f12(O.f12_pow(e, (a * b) % R)))
     for c, (impl, _), want in zip(c2, ck.run(c2), exp):
         ck.expect(impl == want, "bilinear", c[1], impl, want, "e([a]P,[b]Q) = e(P,Q)^(ab)")
+    # [a]P, [b]Q computed by the implementation's own mul_assign (FrRepr scalars incl. values >= r and >= 2^255)
+    P, Qp = base[0]
+    e0 = evals[0]
+    if e0 is not None:
+        sc = [(1, (1 << 255) + 5), ((1 << 256) - 1, 1), (2 * R + 5, 3), (R - 1, R + 2), (rng.randrange(1 << 256), rng.randrange(1 << 256))]
+        mc = []
+        for (a, b) in sc:
+            mc.append(("impl-mul", "g1 mul %s %x" % (g1.J(P), a)))
+            mc.append(("impl-mul", "g2 mul %s %x" % (g2.J(Qp), b)))
+        mr = ck.run(mc)
+        pc, pe = [], []
+        for i, (a, b) in enumerate(sc):
+            pc.append(("bilinear/impl-scalar-mul", "pairing %s %s" % (mr[2 * i][0], mr[2 * i + 1][0])))
+            pe.append(O.show_f12(O.f12_pow(e0, (a * b) % R)))
+        for c, (impl, _), want in zip(pc, ck.run(pc), pe):
+            ck.expect(impl == want, "bilinear", c[1], impl, want, "e([a]P,[b]Q) = e(P,Q)^(ab) with [a]P from mul_assign, a up to 2^256-1")
     # published value e(g1,g2): the repository's own relic vector (extracted on the fly from the test source)
     import re, os
     src = open(os.path.join(os.environ.get("PP_REPO", "/repo"), "src/bls12_381/tests/mod.rs")).read()
@@ -610,6 +655,13 @@ def check_C07(ck):
         for _ in range(4):
             T = twist.random_point(rng)
             cases.append(("insub/other-curve", "%s insub %s" % (tag, g.A(T)))); exp.append("false")
+        if tag == "g2":
+            g1g = grp("g1")
+            for _ in range(4):
+                P1 = g1g.sub_pt(rng)             # order r on y^2 = x^3 + 4, read as a pair over Fq2: not on E2
+                T = ((P1[0], 0), (P1[1], 0))
+                cases.append(("insub/order-r-point-of-a-twist", "%s insub %s" % (tag, g.A(T)))); exp.append("false")
+                cases.append(("oncurve/order-r-point-of-a-twist", "%s oncurve %s" % (tag, g.A(T)))); exp.append("false")
         res = ck.run(cases)
         for c, (impl, _), want in zip(cases, res, exp):
             ck.expect(impl == want, "predicate", c[1], impl, want, "in_subgroup <=> identity or (on curve and [r]P = O)")
@@ -993,7 +1045,7 @@ def _msgs(rng, thorough):
 
 
 def _dsts(rng):
-    return [bytes(rng.randrange(256) for _ in range(l)) for l in (0, 1, 16, 43, 254, 255)]
+    return [bytes(rng.randrange(256) for _ in range(l)) for l in (0, 1, 16, 43, 253, 254, 255)]
 
 
 def check_C13(ck):
@@ -1013,6 +1065,10 @@ def check_C13(ck):
         b = 32 if x == "xmd256" else 64
         lens = [0, 1, 31, 32, 33, 64, 65, 127, 128, 129, 255 * b - 1, 255 * b] if x.startswith("xmd") else [0, 1, 32, 136, 137, 168, 169, 500, 8160, 65535]
         ex = O.expander(x)
+        for d in dsts:                                  # every tag-length class with every expander
+            m = rng.choice(msgs)
+            l = rng.choice([32, 64, 96, 128])
+            cases.append(("expand/%s/dstlen%d" % (x, len(d)), "expand %s %s %s %x" % (x, hx(m), hx(d), l))); exp.append(hx(ex(m, d, l)))
         for l in lens:
             for (m, d) in [(rng.choice(msgs), rng.choice(dsts)) for _ in range(2)] + [(msgs[0], dsts[0])]:
                 want = ex(m, d, l)
@@ -1127,6 +1183,8 @@ def check_C06(ck):
         for x in ("xmd256", "xmd512", "xof128", "xof256"):
             for mode in ("ro", "nu"):
                 picks = [(rng.choice(msgs), rng.choice(dsts)) for _ in range(2 if not thorough else 8)] + [(msgs[0], dsts[0])]
+                if mode == "ro" or thorough:
+                    picks += [(rng.choice(msgs), d) for d in dsts]      # every tag-length class (0..255) per suite
                 if x == "xmd256":
                     picks += [(m, dsts[3]) for m in msgs[:: (3 if not thorough else 1)]]
                 for (m, d) in picks:
@@ -1220,6 +1278,17 @@ def check_C16(ck):
             cases.append(("iso/z1", "%s iso %s" % (tag, g.J(P))))
             cases.append(("iso/other-rep", "%s iso %s" % (tag, g.J(P, g.lam(rng)))))
         cases.append(("iso/identity", "%s iso %s" % (tag, g.J(None))))
+        extra = []
+        for P in pts[:3]:
+            for (cl, lam) in rep_lams(g, rng):
+                extra.append((P, ("iso/rep:" + cl, "%s iso %s" % (tag, g.J(P, lam)))))
+        eres = ck.run([e[1] for e in extra])
+        base_img = {}
+        for (P, c), (impl, _) in zip(extra, eres):
+            key = id(P)
+            if key not in base_img:
+                base_img[key] = impl
+            ck.expect(impl == base_img[key], "representation-independent", c[1], impl, base_img[key], "same image for z = 1, -1, 2, 2^64, random")
         res = ck.run(cases)
         img = {}
         for i, P in enumerate(pts):
@@ -1323,10 +1392,19 @@ def check_C20(ck):
                  "g1 wnaf 4 %s %x" % (g1.J(P), k), "pairing %s %s" % (g1.A(P), g2.A(Qp)),
                  "h2c g1 xmd256 ro %s 51" % bytes(rng.randrange(256) for _ in range(9)).hex(),
                  "g1 wnafhist bs:%s:5:%x;sb:%x:%s;bs:%s:300:%x" % (g1.J(P), k, k, g1.J(g1.gen), g1.J(P), k // 3),
+                 "g1 wnafhist bs:%s:5:%x;bs:%s:5:0;sb:%x:%s;sb:0:%s;bsh:%s:2:0;bs:%s:2:1" % (g1.J(P), k, g1.J(P), k, g1.J(P), g1.J(P), g1.J(P), g1.J(P)),
+                 "g2 wnafhist sb:%x:%s;sb:0:%s;bs:%s:9:%x;bs:%s:9:0" % (k, g2.J(Qp), g2.J(Qp), g2.J(Qp), k, g2.J(Qp)),
                  "g2 pip 4 %s;%s %x;%x" % (g2.A(Qp), g2.A(g2.gen), k, k // 7),
                  "g1 enc_c %s" % g1.A(P), "fq12 frob %s 7" % O.show_f12(O.f12_unflat([rng.randrange(Q) for _ in range(12)]))]
     base = ck.run([("sequential", w) for w in work])
     ref = [a for (a, _) in base]
+    # every call of a reused-context history must equal the same call on a FRESH context
+    for w, r in zip(work, ref):
+        if " wnafhist " in w:
+            tagw, _, hist = w.split(" ", 2)
+            calls = hist.split(";")
+            fresh = ck.run([("fresh-context", "%s wnafhist %s" % (tagw, c.replace("bsh:", "bs:").replace("sbh:", "sb:"))) for c in calls])
+            ck.expect(";".join(f[0] for f in fresh) == r, "history-independent", w[:120], r[:120], ";".join(f[0] for f in fresh)[:120], "reused wNAF context = fresh contexts, call by call")
     # same lines in a different order inside one process (call-history independence)
     order = list(range(len(work)))
     rng.shuffle(order)
